@@ -18,7 +18,7 @@ Separate Extraction
   Charac.cstep Charac.well_typed Z.opp Z.div Z.modulo
   Hap.step Hap.fixed Hap.store_get Hap.empty_world Hap.get_conn
   CatalogGen.char_ctors CatalogGen.svc_ctors Catalog.svc_type Catalog.svc_char_types
-  Ids.add_accessory Ids.instance_ids Ids.empty_container
+  Ids.add_accessory Ids.remove_accessory Ids.instance_ids Ids.empty_container
   Pin.validate_pin Pin.xhm_of_pin Pin.xhm_decode Config.start Config.pair Config.unpair Config.discoverable_now
   Config.same_hash_input Config.empty_disk Extracted.invalid_pins
   TlvStruct.marshal TlvStruct.unmarshal TlvStruct.fixed_knobs TlvStruct.pinned_knobs.
